@@ -12,7 +12,7 @@ import time
 import traceback
 
 from . import env as venv
-from .api import Expect, Kind, Outcome
+from .api import Expect, Inconclusive, Kind, Outcome
 
 ROOT = venv.VERIF_ROOT
 SITE = os.path.join(sys.prefix, "lib")
@@ -155,7 +155,7 @@ class Shard:
             except Expect as e:
                 out = Outcome("violation", signature=e.signature,
                               detail=e.detail)
-            except CaseTimeout:
+            except (CaseTimeout, Inconclusive):
                 fr["inconclusive"] += 1
                 out = Outcome("inconclusive")
             except BaseException as e:  # noqa: BLE001 - classified below
